@@ -57,6 +57,9 @@ class CazacBasedChannelEstimator:
             ue_ref_seq = ue_ref_seq.seq_array()
         else:
             self._normalized_ref_seq = False
+            # Keep our own copy: the array belongs to the caller, who may
+            # reuse (overwrite) it after the estimator was created
+            ue_ref_seq = np.array(ue_ref_seq)
 
         self._ue_ref_sequence = ue_ref_seq
         self._size_multiplier = size_multiplier
